@@ -729,8 +729,10 @@ class CompositeEnvelopeContainer:
             Other composite envelope container
         """
         assert isinstance(other, CompositeEnvelopeContainer)
+        for state in other.states:
+            state.container = self
         self.states.extend(other.states)
-        self.envelopes.extend(other.envelopes)
+        self.envelopes.extend(e for e in other.envelopes if e not in self.envelopes)
 
     def remove_empty_product_states(self) -> None:
         """
@@ -795,6 +797,7 @@ class CompositeEnvelope:
                 composite_envelopes.append(e.composite_envelope)
 
         ce_container = None
+        merged_handles: List[CompositeEnvelope] = []
         for ce in composite_envelopes:
             assert isinstance(
                 ce, CompositeEnvelope
@@ -802,9 +805,13 @@ class CompositeEnvelope:
             state_objs.extend(ce.state_objs)
             if ce_container is None:
                 ce_container = CompositeEnvelope._containers[ce.uid]
-            else:
+            elif CompositeEnvelope._containers[ce.uid] is not ce_container:
                 ce_container.append_states(CompositeEnvelope._containers[ce.uid])
-            ce.uid = self.uid
+            # All handles of the merged composite envelope follow the merge
+            for handle in CompositeEnvelope._instances.get(ce.uid, [ce])[:]:
+                if handle not in merged_handles:
+                    merged_handles.append(handle)
+                handle.uid = self.uid
         if ce_container is None:
             ce_container = CompositeEnvelopeContainer(self.uid)
         for e in envelopes:
@@ -820,7 +827,10 @@ class CompositeEnvelope:
         if not CompositeEnvelope._instances.get(self.uid):
             CompositeEnvelope._instances[self.uid] = []
         CompositeEnvelope._instances[self.uid].append(self)
+        CompositeEnvelope._instances[self.uid].extend(merged_handles)
+        ce_container.composite_uid = self.uid
         self.update_composite_envelope_pointers()
+        ce_container.update_all_indices()
 
     def __repr__(self) -> str:
         return (
